@@ -23,6 +23,7 @@ type SpecFun struct {
 	Name   string
 	Params []SpecParam
 	Result string
+	File   string
 }
 
 type implInfo struct {
@@ -49,6 +50,8 @@ type Engine struct {
 	ghostFields map[string]types.Type
 	specFuns  map[string]*SpecFun
 	specText  string
+	specFiles map[string]string // file -> SMT text
+	specOrder []string
 	globals   map[string]*globalInit
 	mutableGlobals map[string]bool
 	sealed    map[string]bool
@@ -301,8 +304,10 @@ var reSpecParam = regexp.MustCompile(`\((\S+)\s+(\S+)\)`)
 func (eng *Engine) loadSpecs(dir string) error {
 	files, _ := filepath.Glob(filepath.Join(dir, "*.smt2"))
 	sort.Strings(files)
-	var sb strings.Builder
+	eng.specFiles = map[string]string{}
 	for _, f := range files {
+		var sb strings.Builder
+		eng.specOrder = append(eng.specOrder, f)
 		fh, err := os.Open(f)
 		if err != nil {
 			return err
@@ -312,7 +317,7 @@ func (eng *Engine) loadSpecs(dir string) error {
 		for sc.Scan() {
 			line := sc.Text()
 			if m := reSpecSig.FindStringSubmatch(line); m != nil {
-				sf := &SpecFun{Name: m[1], Result: m[3]}
+				sf := &SpecFun{Name: m[1], Result: m[3], File: f}
 				for _, pm := range reSpecParam.FindAllStringSubmatch(m[2], -1) {
 					sf.Params = append(sf.Params, SpecParam{pm[1], pm[2]})
 				}
@@ -325,8 +330,8 @@ func (eng *Engine) loadSpecs(dir string) error {
 			sb.WriteString(line + "\n")
 		}
 		fh.Close()
+		eng.specFiles[f] = sb.String()
 	}
-	eng.specText = sb.String()
 	return nil
 }
 
